@@ -65,6 +65,8 @@ func drawTG(t *rapid.T, fams []string, maxAll int, nSent int) *TGCase {
 		s = spec.Nullable(t)
 	case "samehandle":
 		s = spec.SameHandle(t)
+	case "bigauto":
+		s = spec.BigAuto(t)
 	case "prec":
 		s = spec.Productive(t, smallCfg)
 		spec.WithPrec(t, s)
@@ -103,6 +105,9 @@ func drawTG(t *rapid.T, fams []string, maxAll int, nSent int) *TGCase {
 		panic("unknown tier-G family " + f)
 	}
 	spec.WithSem(t, s)
+	if rapid.IntRange(0, 4).Draw(t, "eofalias") == 0 {
+		s.EOFAlias = "EOFTOK"
+	}
 	cs := &TGCase{Family: name, Spec: s}
 	cs.Inputs = drawInputs(t, s, maxAll, nSent)
 	cs.Text = displayText(s)
